@@ -645,13 +645,18 @@ TARGETS = {
     "arr": {"type": "array", "items": {"type": "integer", "binaryFormat": "h"}},
     "obj": {"type": "object", "properties": {"x": {"type": "number", "binaryFormat": "d"}}},
 }
-CONTEXTS = ["prop", "obj.prop", "arr.items", "arr.items.prop", "arr.items.items"]
+CONTEXTS = ["prop", "prop.after_pad", "prop.before_pad", "obj.prop", "arr.items", "arr.items.prop", "arr.items.items"]
 
 
 def _in_context(ctx, sub):
     other = {"type": "integer", "binaryFormat": "B"}
     if ctx == "prop":
         return _struct({"k": sub, "m": other})
+    # the same property with a (valid) padding field sorting before / after it in the struct field order
+    if ctx == "prop.after_pad":
+        return _struct({"a0": {"type": "null", "binaryFormat": "1x"}, "k": sub, "m": other})
+    if ctx == "prop.before_pad":
+        return _struct({"k": sub, "m": other, "z9": {"type": "null", "binaryFormat": "2x"}})
     if ctx == "obj.prop":
         return _struct({"o": {"type": "object", "properties": {"k": sub, "m": other}}})
     if ctx == "arr.items":
@@ -1566,7 +1571,7 @@ def check_meta(case, acc, case_id):
     st, m = _call(MS, copy.deepcopy(case["schema"]))
     if st == "ok":
         where = "top" if (case["ctx"] in ("json", "struct") or
-                          (case["ctx"] == "prop" and case.get("target") != "obj")) else "nested"
+                          (case["ctx"].startswith("prop") and case.get("target") != "obj")) else "nested"
         if where == "nested":
             # The struct codec's extra schema rules (optional-needs-default, length vs arrayLengthFormat /
             # exhaust, non-negative length, null padding) are only documented - and enforced - for the
